@@ -57,79 +57,93 @@ Proof. destruct t; cbn; try reflexivity; [destruct (rf_flush_sinks cfg)|destruct
 Lemma lnext_pass m pre t : lnext m (pass pre m) t = pass (gnext pre t) m.
 Proof. destruct t; unfold lnext, gnext; try reflexivity. rewrite pass_app. reflexivity. Qed.
 
+(* induction over trees with the hypothesis available for every handler of a nested pipeline *)
+Section TreeInd.
+  Variable P : tree -> Prop.
+  Hypothesis HS : forall s, P (TSink s).
+  Hypothesis HP : forall l, Forall P l -> P (TPipe l).
+  Hypothesis HF : forall f, P (TFilter f).
+  Hypothesis HO : P TOther.
+  Fixpoint tree_ind2 (t : tree) : P t :=
+    match t with
+    | TSink s => HS s
+    | TPipe l => HP l ((fix G (l : list tree) : Forall P l :=
+                          match l with [] => Forall_nil _ | x :: r => Forall_cons x (tree_ind2 x) (G r) end) l)
+    | TFilter f => HF f
+    | TOther => HO
+    end.
+End TreeInd.
+(* the loops of the model as top-level functions *)
+Definition lw cfg pol (m : msg) : list tree -> bool -> list tree :=
+  fix lw (l : list tree) (lv : bool) : list tree :=
+    match l with [] => [] | x :: r => twrite cfg pol m lv x :: lw r (lnext m lv x) end.
+Lemma lw_cons cfg pol m x r lv : lw cfg pol m (x :: r) lv = twrite cfg pol m lv x :: lw cfg pol m r (lnext m lv x).
+Proof. reflexivity. Qed.
+Fixpoint go (l : list tree) (cur : list flt) : list (sink * list flt) :=
+  match l with [] => [] | x :: r => gs cur x ++ go r (gnext cur x) end.
+Lemma twrite_pipe cfg pol m lv l : twrite cfg pol m lv (TPipe l) = TPipe (lw cfg pol m l lv).
+Proof. reflexivity. Qed.
+Lemma gs_pipe pre l : gs pre (TPipe l) = go l pre.
+Proof. reflexivity. Qed.
+
 (* a message appends its record exactly to the sinks whose filters it passes *)
 Lemma tview_twrite cfg pol m : forall t pre,
   tview pre (twrite cfg pol m (pass pre m) t) = map (upd m) (tview pre t).
 Proof.
-  fix F 1. intros [s|l|f|] pre; cbn [twrite]; try reflexivity.
-  - unfold tview. cbn [gs map]. unfold vw, upd. cbn [fst snd].
+  induction t as [s|l IH|f|] using tree_ind2; intros pre; try reflexivity.
+  - unfold tview. cbn [twrite gs map]. unfold vw, upd. cbn [fst snd].
     destruct (pass pre m).
     + destruct (write_spec cfg pol s m) as [-> ->]. reflexivity.
     + rewrite app_nil_r. reflexivity.
-  - unfold tview. cbn [gs].
-    refine ((fix G (l : list tree) (cur : list flt) {struct l} :
-               map vw ((fix go (l : list tree) (cur : list flt) : list (sink * list flt) :=
-                          match l with [] => [] | x :: r => gs cur x ++ go r (gnext cur x) end)
-                         ((fix lw (l : list tree) (lv : bool) : list tree :=
-                             match l with [] => [] | x :: r => twrite cfg pol m lv x :: lw r (lnext m lv x) end) l (pass cur m)) cur)
-               = map (upd m) (map vw ((fix go (l : list tree) (cur : list flt) : list (sink * list flt) :=
-                          match l with [] => [] | x :: r => gs cur x ++ go r (gnext cur x) end) l cur)) :=
-               match l with [] => fun _ => eq_refl | x :: r => fun cur => _ end cur) l pre).
-    rewrite !map_app. rewrite gnext_twrite, lnext_pass.
-    change (map vw (gs cur (twrite cfg pol m (pass cur m) x))) with (tview cur (twrite cfg pol m (pass cur m) x)).
-    rewrite (F x cur), (G r (gnext cur x)). reflexivity.
+  - rewrite twrite_pipe. unfold tview. rewrite !gs_pipe. revert pre.
+    induction IH as [|x r Hx _ IHr]; intros cur; [reflexivity|].
+    rewrite lw_cons. cbn [go]. rewrite !map_app, gnext_twrite, lnext_pass, IHr. f_equal. apply Hx.
 Qed.
 
 (* a flush changes no view *)
+Lemma go_map_tflush cfg l : Forall (fun t => forall pre, tview pre (tflush cfg t) = tview pre t) l ->
+  forall cur, map vw (go (map (tflush cfg) l) cur) = map vw (go l cur).
+Proof.
+  induction 1 as [|x r Hx _ IHr]; intros cur; [reflexivity|].
+  cbn [map go]. rewrite !map_app, gnext_tflush, IHr. f_equal. apply Hx.
+Qed.
 Lemma tview_tflush cfg : forall t pre, tview pre (tflush cfg t) = tview pre t.
 Proof.
-  fix F 1. intros [s|l|f|] pre; cbn [tflush]; try reflexivity.
+  induction t as [s|l IH|f|] using tree_ind2; intros pre; try reflexivity; cbn [tflush].
   - destruct (rf_flush_sinks cfg); [|reflexivity]. unfold tview. cbn [gs map]. unfold vw. cbn [fst snd].
     rewrite sink_flush_content, sink_flush_broken. reflexivity.
-  - destruct (rf_descends cfg); [|reflexivity]. unfold tview. cbn [gs].
-    refine ((fix G (l : list tree) (cur : list flt) {struct l} :
-               map vw ((fix go (l : list tree) (cur : list flt) : list (sink * list flt) :=
-                          match l with [] => [] | x :: r => gs cur x ++ go r (gnext cur x) end) (map (tflush cfg) l) cur)
-               = map vw ((fix go (l : list tree) (cur : list flt) : list (sink * list flt) :=
-                          match l with [] => [] | x :: r => gs cur x ++ go r (gnext cur x) end) l cur) :=
-               match l with [] => fun _ => eq_refl | x :: r => fun cur => _ end cur) l pre).
-    cbn [map]. rewrite !map_app, gnext_tflush.
-    change (map vw (gs cur (tflush cfg x))) with (tview cur (tflush cfg x)).
-    rewrite (F x cur), (G r (gnext cur x)). reflexivity.
+  - destruct (rf_descends cfg); [|reflexivity]. unfold tview. rewrite !gs_pipe. apply go_map_tflush. exact IH.
 Qed.
 Lemma tview_root_flush cfg t pre : tview pre (root_flush cfg t) = tview pre t.
 Proof.
-  destruct t as [s|l|f|]; try apply tview_tflush. unfold root_flush, tview. cbn [gs]. revert pre.
-  induction l as [|x r IH]; intros cur; [reflexivity|].
-  cbn [map]. rewrite !map_app, gnext_tflush.
-  change (map vw (gs cur (tflush cfg x))) with (tview cur (tflush cfg x)). rewrite tview_tflush.
-  f_equal. apply IH.
+  destruct t as [s|l|f|]; try apply tview_tflush. unfold root_flush, tview. rewrite !gs_pipe.
+  apply go_map_tflush. apply Forall_forall. intros x _. apply tview_tflush.
 Qed.
 
 (* after a flush that reaches everything, no healthy sink has anything buffered *)
 Definition flushed (sg : sink * list flt) : Prop := broken (fst sg) = false -> buf (fst sg) = [].
+Lemma go_map_flushed cfg l : Forall (fun t => forall pre, Forall flushed (gs pre (tflush cfg t))) l ->
+  forall cur, Forall flushed (go (map (tflush cfg) l) cur).
+Proof.
+  induction 1 as [|x r Hx _ IHr]; intros cur; [constructor|].
+  cbn [map go]. apply Forall_app. split; [apply Hx|apply IHr].
+Qed.
 Lemma gs_tflush_flushed cfg :
   rf_flush_sinks cfg = true -> rf_descends cfg = true -> fs_flush_real cfg = true ->
   forall t pre, Forall flushed (gs pre (tflush cfg t)).
 Proof.
-  intros Hs Hd Hr. fix F 1. intros [s|l|f|] pre; cbn [tflush]; try (cbn; constructor).
+  intros Hs Hd Hr. induction t as [s|l IH|f|] using tree_ind2; intros pre; cbn [tflush]; try (cbn; constructor).
   - rewrite Hs. cbn [gs]. constructor; [|constructor]. unfold flushed, sink_flush. cbn [fst]. rewrite Hr.
     rewrite qflush_broken. apply qflush_buf.
-  - rewrite Hd. cbn [gs].
-    refine ((fix G (l : list tree) (cur : list flt) {struct l} :
-               Forall flushed ((fix go (l : list tree) (cur : list flt) : list (sink * list flt) :=
-                          match l with [] => [] | x :: r => gs cur x ++ go r (gnext cur x) end) (map (tflush cfg) l) cur) :=
-               match l with [] => fun _ => Forall_nil _ | x :: r => fun cur => _ end cur) l pre).
-    cbn [map]. apply Forall_app. split; [apply F|apply G].
+  - rewrite Hd, gs_pipe. apply go_map_flushed. exact IH.
 Qed.
 Lemma gs_root_flush_flushed cfg :
   rf_flush_sinks cfg = true -> rf_descends cfg = true -> fs_flush_real cfg = true ->
   forall t, Forall flushed (gs [] (root_flush cfg t)).
 Proof.
   intros Hs Hd Hr [s|l|f|]; try (apply gs_tflush_flushed; assumption).
-  unfold root_flush. cbn [gs]. generalize (@nil flt).
-  induction l as [|x r IH]; intros cur; [constructor|].
-  cbn [map]. apply Forall_app. split; [apply gs_tflush_flushed; assumption|apply IH].
+  unfold root_flush. rewrite gs_pipe. apply go_map_flushed. apply Forall_forall. intros x _.
+  apply gs_tflush_flushed; assumption.
 Qed.
 
 (* ---- messages and histories ---- *)
@@ -177,7 +191,7 @@ Proof.
 Qed.
 Lemma survivors_of_flushed t : Forall flushed (gsinks t) -> survivors t = map obs (view t).
 Proof.
-  unfold survivors, view, tview. generalize (gsinks t). intros l H. rewrite map_map.
+  unfold survivors, view, tview, gsinks. generalize (gs [] t). intros l H. rewrite map_map.
   induction H as [|[s G] l Hs _ IH]; [reflexivity|]. cbn [map]. rewrite IH. f_equal.
   unfold vw, obs. cbn [fst snd]. unfold flushed in Hs. cbn [fst] in Hs.
   destruct (broken s); [reflexivity|]. unfold content. rewrite (Hs eq_refl), app_nil_r. reflexivity.
@@ -215,8 +229,9 @@ Corollary fatal_reaches_disk_unfiltered cfg : cfg_goodb cfg = true ->
 Proof.
   intros Hg pol t msgs r H. rewrite (fatal_reaches_disk cfg Hg). unfold expected.
   induction H as [|[s G] l [HG Hb] _ IH]; [reflexivity|]. cbn [map fst snd] in *. rewrite IH, Hb, HG. f_equal. f_equal. f_equal.
-  rewrite map_app. cbn. f_equal.
-  induction msgs as [|m rest IHm]; [reflexivity|]. cbn. rewrite IHm. reflexivity.
+  assert (E : forall ms : list msg, filter (pass []) ms = ms)
+    by (induction ms as [|m rest IHm]; [reflexivity|]; cbn; rewrite IHm; reflexivity).
+  rewrite E, map_app. reflexivity.
 Qed.
 
 (* ---- the oracle ---- *)
